@@ -16,6 +16,11 @@ from .C03 import _canon, _inv_eq, _same
 from .common import generic_replay, run_families, std_case
 
 ASSUMPTIONS = ["KeyNotRequired is a key marker: it is only placed in key position"]
+from ..facts import effects as _effects  # noqa: E402
+_FX = _effects.obligation("C18")
+EXTRA_PROOF_FILES = [_FX[0]]
+TRUSTED_EXTRA = [_FX[1]]
+regenerate_facts = _FX[2]
 KEY = G.S("k")
 
 CONTEXTS = ["list", "utuple", "ntuple", "set", "mapval", "mapkey", "dictany", "record", "class", "maybe", "lazy",
@@ -297,9 +302,69 @@ def nontrivial(c: Case) -> bool:
     return c.obs is not None and c.obs[0] in ("OValid", "OInvalid")
 
 
+def self_context(kind: str, xt, mode: str) -> Optional[str]:
+    """A collection validator that contains itself (through Lazy) is its own context: nested one level
+    deeper, between two good siblings, a value gets the verdict and payload it gets on its own."""
+    from ..build import Ctx, to_py
+    from .C03 import LZ, REC_DEFS
+    lazy = REC_DEFS[kind]
+    ctx = Ctx(G.STD_CLASSES, lazy)
+    v = ctx.validator(LZ)
+    x = to_py(xt, ctx.ct)
+    if kind == "map":
+        outer = {" p ": 1, " q ": x, " r ": 4}
+        pick = lambda w: w["q"]
+    elif kind == "list":
+        outer = [1, x, 4]
+        pick = lambda w: w[1]
+    else:
+        outer = (1, x, 4)
+        pick = lambda w: w[1]
+    try:
+        ri = _call(v, mode, x)
+        ro = _call(v, mode, outer)
+    except RecursionError:
+        return None
+    if ri.is_valid != ro.is_valid:
+        return f"on its own {x!r} gives {ri!r}; nested in {outer!r} under the same validator the result is {ro!r}"
+    if ri.is_valid and not _same(ctx, pick(ro.val), ri.val):
+        return f"on its own {x!r} has payload {ri.val!r}; nested in {outer!r} under the same validator the payload there is {pick(ro.val)!r} ({ro!r})"
+    return None
+
+
+def self_contexts(tier: str, rng: random.Random):
+    from ..lang import to_json
+    from .C03 import _rec_data
+    bad, n = [], 0
+    for kind in ("utuple", "utuple-plain", "list", "map"):
+        for _ in range(40 if tier == "quick" else 1500):
+            xt = _rec_data(kind, rng, rng.choice([0, 1, 2]))
+            for m in ("sync", "async"):
+                n += 1
+                try:
+                    r = self_context(kind, xt, m)
+                except HarnessError:
+                    continue
+                if r and not bad:
+                    bad.append({"kind": "oracle", "signature": "C18:self-context", "what": r,
+                                "replay_case": {"selfctx": kind, "x": to_json(xt), "mode": m}})
+    return bad, n
+
+
 def run(tier: str, rng: random.Random, proof_ok: bool) -> dict:
-    return run_families("C18", cases(tier, rng), rng, oracle, nontrivial)
+    rep = run_families("C18", cases(tier, rng), rng, oracle, nontrivial)
+    bad, n = self_contexts(tier, rng)
+    rep["violations"] += bad
+    rep["coverage"]["self_containing_contexts"] = n
+    return rep
 
 
 def replay(path: str) -> int:
+    import json
+    from ..lang import from_json
+    rc = json.load(open(path)).get("replay_case")
+    if isinstance(rc, dict) and rc.get("selfctx"):
+        r = self_context(rc["selfctx"], from_json(rc["x"]), rc["mode"])
+        print("property violated on this input: " + r if r else "property holds on this input")
+        return 1 if r else 0
     return generic_replay(path, oracle)
